@@ -168,6 +168,7 @@ struct OpSlot {
     int64_t fired[F_KINDS] = {0};
     std::vector<HeapViolation> heapV;
     const SharedInput *shared = nullptr;
+    std::vector<int64_t> nrSteps;  // solo steps at which the call returned from a non-re-entrant libc facility
     bool roundChanged = false;  // any per-thread ambient state (FP control, signal mask/dispositions) left changed
     std::string ambWhat;
 };
@@ -295,6 +296,7 @@ void C18Exec::prepare(C18Outcome &out) {
             schedSetOpBudget(50000000);
             s.expected = execOp(SIM, op, eo);
             s.soloSteps = schedSoloEnd();
+            s.nrSteps = schedSoloPreferredSteps();
             heapBind(nullptr);
             Ambient amb1 = ambientGet(true);
             if (!(amb0 == amb1) && s.expected.status == CALL_RETURNED) {
@@ -770,6 +772,17 @@ JP runC18(uint64_t runSeed, int64_t runIdx, const TierCfg &cfg) {
         }
         for (int k = 0; k < 4 && s0 > 1; k++) pos.insert(rng.range(1, std::min<int64_t>(s0, 40)));  // right after entry
         for (int k = 0; k < 6 && s0 > 1; k++) pos.insert(std::max<int64_t>(1, s0 - (int64_t)rng.below(120)));  // right before exit
+        {
+            // exactly where the first task comes back from a non-re-entrant libc facility (strtok, localtime,
+            // setlocale, ...): the window for interference through libc's hidden state opens there
+            int64_t off = 0;
+            for (auto &s : e.slots[0]) {
+                if (s.dropped) continue;
+                for (size_t k = 0; k < s.nrSteps.size() && k < 24; k++)
+                    for (int64_t d = 0; d <= 2; d++) pos.insert(std::max<int64_t>(1, off + s.nrSteps[k] + d));
+                off += s.soloSteps + 1;
+            }
+        }
         if (pos.empty()) pos.insert(1);
         int T = (int)cs.progs.size();
         for (int64_t p : pos) {
